@@ -239,7 +239,10 @@ def build_cases(ctx):
         ext = [f for f in F.extref_sites(root, rng, 1 if (big and quick) else None) if not f.get('empty')]
         if name == 'full' and quick:
             ext = []
-        for f in F.crossref_sites(root) + ext:
+        wk = F.wrongkind_sites(root)
+        if quick and len(wk) > 40:
+            wk = rng.sample(wk, 40)
+        for f in F.crossref_sites(root) + wk + ext:
             cases.append({'scope': {'base': text, 'fault': f}, 'family': 'scope:' + name, 'clean': False, 'masks': [],
                           'spec': {'top': []}, 'uids': {}, 'scope_name': name})
             stats['scope-crossing' if f['kind'] == 'crossref' else 'foreign-reference'] = \
@@ -270,15 +273,18 @@ def run_impl_cases(cases, chunk=80):
     return [r for o in outs for r in o]
 
 
+DANGLING_PREFIXES = ('#nosuch', '#no%such')
+
+
 def has_certain_dangling(spec):
     """a dangling ('#nosuch...') reference that is certainly evaluated: the url of an instance in a
     library or scene node, a material's effect, the default scene, an instance_node"""
     for t in spec['top']:
         if t['kind'] == 'default':
-            if t['url'].startswith('#nosuch'):
+            if t['url'].startswith(DANGLING_PREFIXES):
                 return True
         elif t['kind'] == 'materials':
-            if any(x['effect'].startswith('#nosuch') for x in t['items']):
+            if any(x['effect'].startswith(DANGLING_PREFIXES) for x in t['items']):
                 return True
         elif t['kind'] in ('nodes', 'scenes'):
             tops = t['items'] if t['kind'] == 'nodes' else [n for s in t['items'] for n in s['nodes']]
@@ -286,9 +292,13 @@ def has_certain_dangling(spec):
                 for c in R.flat_children(x['children']):
                     # (children behind an unresolvable instance_node are never reached, but then the
                     # node itself is reported as a broken reference)
-                    if c['url'].startswith('#nosuch'):
+                    if c['url'].startswith(DANGLING_PREFIXES):
                         return True
     return False
+
+
+def _unused():
+    pass
 
 
 def oracle(case, res):
